@@ -15,7 +15,7 @@
 
    No proofs in this file. *)
 From Coq Require Import List String ZArith Bool Arith DecimalString.
-Require Import OV.Graph.Syntax OV.Graph.Names OV.Rewrite.Apply.
+Require Import OV.Graph.Syntax OV.Graph.Names OV.Rewrite.Apply OV.Rewrite.FnCall.
 Import ListNotations.
 Local Open Scope string_scope.
 Local Open Scope list_scope.
@@ -333,7 +333,14 @@ Definition fn_okb (d : delta) (a : app) (s : graph) (ov : option string) (cmap :
     (list_eqb String.eqb (fq_used q) (map n_dom (sel (a_mask a) (g_nodes s))) ||
      list_eqb String.eqb (fq_used q) (map n_dom (fq_body q))) &&
     match a_new a with
-    | [c] => String.eqb (n_op c) (fq_name q ++ ":" ++ o)%string && String.eqb (n_dom c) (fq_dom q)
+    | [c] => String.eqb (n_op c) (fq_name q ++ ":" ++ o)%string && String.eqb (n_dom c) (fq_dom q) &&
+             (* no copied constants: the executable hypotheses of as_function_app_sound (the call is interchangeable with the
+                matched nodes for a kernel that interprets it by the function body) *)
+             match cmap with
+             | [] => extract_okb (n_dom c) (n_op c) (fq_ins q) (sel (a_mask a) (g_nodes s)) (fq_outs q) &&
+                     list_eqb (opt_eqb String.eqb) (n_ins c) (map Some (fq_ins q)) && list_eqb String.eqb (n_outs c) (fq_outs q)
+             | _ => true
+             end
     | _ => false
     end
   | Some _, None => false
